@@ -532,6 +532,8 @@ def run(check: Check):
     check.trust("T-IND: the end-to-end statement follows from the per-production contracts by structural induction over the parse tree "
                 "(every callback's contract speaks only about its children's sort/type/denotation); the induction itself is metatheory")
     check.trust("T-C11 / T-RZIL / T-HEX / T-PLUGIN: the specification modules spec/c11.py, spec/rzil.py, spec/hexagon.py and the plugin macro contracts")
+    check.trust("T-QEMU: spec/bundled_data.py - the reviewed no-op list and the reviewed C sources of the 13 bundled sub-routines (the data files are "
+                "compared with them; whether those sources transcribe QEMU's helpers faithfully is a review statement, not an obligation)")
     check.trust("T-LARK: lark applies the callbacks bottom-up, one per production instance (Transformer.transform)")
     check.trust("T-CANCEL: a bare `cancel_slot;` (loads, returns) has no architectural effect - slot-cancel state matters only for stores, which the "
                 "shortcode marks with STORE_SLOT_CANCELLED(pkt, slot); the NOP translation is accepted on that ground")
